@@ -204,6 +204,12 @@ class Env:
             return isinstance(e, usim.StreamClosed)
         return False
 
+    def resolve(self, w):
+        """copy of w in which task names are bound to the task objects they denote NOW (as `mk` binds them)"""
+        if w[0] == 'done':
+            return ['done', w[1], self.tasks.get(w[1])]
+        return [w[0]] + [self.resolve(x) if isinstance(x, list) else x for x in w[1:]]
+
     # ---- independent evaluation of a notification expression on the current raw values
     def eval_w(self, w):
         """truth of a *condition* expression now (None for delays, which are not conditions)"""
@@ -228,7 +234,7 @@ class Env:
         if k == 'cmp2':
             return bool(OPS[w[2]](self.tracked[w[1]].value, self.tracked[w[3]].value))
         if k == 'done':
-            t = self.tasks.get(w[1])
+            t = w[2] if len(w) > 2 else self.tasks.get(w[1])
             return bool(t._done._value) if t is not None else False
         if k == 'and':
             return self.eval_w(w[1]) and self.eval_w(w[2])
@@ -261,6 +267,8 @@ class Env:
         else:
             name, w, body = s[1], s[2], s[3]
             n = self.mk(w)
+            if self.probes is not None:
+                w = self.resolve(w)
             self.probe('until_cond', name, w, self.eval_w(w), n)
             mgr = usim.until(n)
         t0 = self.now()
@@ -306,6 +314,7 @@ class Env:
             pid = self.pid
             obj = self.mk(w)
             if self.probes is not None:
+                w = self.resolve(w)
                 v = self.eval_w(w)
                 if v is not None:
                     self.probe('cond_eval', w, v, bool(obj))
@@ -465,8 +474,8 @@ def run_scenario(sc, budget=4000, wall=10, probes=None):
             raise Budget()
         if probes is not None:
             q = dues.get((id(target), id(signal_)))
-            due = q.pop(0) if q else None
-            env.probe('act', self.time, self.turn, due, env.coro_names.get(id(target)))
+            due, seq = q.pop(0) if q else (None, None)
+            env.probe('act', self.time, self.turn, due, env.coro_names.get(id(target)), seq)
             step_checks(self)
         try:
             return orig_run(self, target, signal_)
@@ -481,7 +490,8 @@ def run_scenario(sc, budget=4000, wall=10, probes=None):
             due = self.time + delay
         else:
             due = at
-        dues.setdefault((id(target), id(signal)), []).append(due)
+        info['nsched'] = info.get('nsched', 0) + 1
+        dues.setdefault((id(target), id(signal)), []).append((due, info['nsched']))
         env.keep.append((target, signal))      # keep ids unique for the duration of the run
         return orig_sched(self, target, signal, delay=delay, at=at)
 
@@ -501,7 +511,7 @@ def run_scenario(sc, budget=4000, wall=10, probes=None):
     roots = [env.block(ss, ('r', i)) for i, ss in enumerate(sc['roots'])]
     for i, r in enumerate(roots):
         env.coro_names[id(r)] = ('r', i)
-        dues.setdefault((id(r), id(None)), []).append(tval(sc['start']))
+        dues.setdefault((id(r), id(None)), []).append((tval(sc['start']), i - len(roots)))
     info['env'] = env
     final = [90]
     err = None
